@@ -144,6 +144,10 @@ M = [
   [(U, "            local.repin_in_disposal();", "            local.repin_without_collect();")]),
  ("K05", "control", "the disposal pass never re-pins (what 265b081 did by accident): no listed property requires the re-pin, every check must stay green; T10's non-triviality count drops to 0, which is how the evidence shows it", ["C02", "C06", "C07", "C16"],
   [(U, "    if count % 128 == 0 {", "    if count % 128 == 0 && depth == usize::MAX {")]),
+ ("M72", "mutant", "queue push publishes the tail with a plain store instead of the CAS from `onto` (round-8 seed): an overtaken pusher moves the tail back onto a node that is later freed", ["C17"],
+  [(Q, "                let _ = self\n                    .tail\n                    .compare_exchange(onto, new, Release, Relaxed, guard);", "                self.tail.store(new, Release);")]),
+ ("M73", "mutant", "List::insert writes the new entry's own next only after the head CAS that publishes it (round-7 seed)", ["C18", "C14"],
+  [(L, "            entry.next.store(next, Relaxed);\n            match to.compare_exchange_weak(next, entry_ptr, Release, Relaxed, guard) {\n                Ok(_) => break,", "            match to.compare_exchange_weak(next, entry_ptr, Release, Relaxed, guard) {\n                Ok(_) => {\n                    entry.next.store(next, Relaxed);\n                    break;\n                }")]),
  ("M60", "mutant", "increment_strong no longer refuses to overflow the strong field", ["C01"],
   [(U, "            assert!(\n                old.strong() as u64 + add as u64 <= STRONG,\n                \"too many references to one object\"\n            );\n", "")]),
  ("M61", "mutant", "bulk constructors truncate the count again (`as u32`, no range check)", ["C10"],
